@@ -53,7 +53,7 @@ class Notification(object):
 
 class EObserver(object):
     def __init__(self, notifier=None, notifyChanged=None):
-        if notifier:
+        if notifier is not None:
             notifier.listeners.append(self)
         if notifyChanged:
             self.notifyChanged = notifyChanged
